@@ -48,6 +48,8 @@ REQUIRED = [
     "datagrams_checked",
     "serve_restarted_on_same_listener",
     "datagrams_before_serve",
+    "level:high",
+    "handler_let_timeout_escape",
     "listener:scripted",
     "listener:real-protocol",
 ]
@@ -93,6 +95,10 @@ def gen_script(rng: random.Random) -> dict:
         "timeout": [rng.choice([None, None, 0.5, 2.0, 0, 0]) for _ in range(A)],
         "tmode": [rng.choice(["yield", "yield", "timeout-scope", "move-on-scope"]) for _ in range(A)],
         "on_timeout": rng.choice(["continue", "stop"]),
+        # high: the handler is an AsyncDatagramRequestHandler run through servers.misc.build_lowlevel_datagram_server_handler, as the
+        # high-level UDP server does; only there may a handler let its TimeoutError escape (the wrapper contains and logs it)
+        "level": rng.choice(["low", "low", "high"]),
+        "escape_timeout": rng.random() < 0.5,
         "reply": rng.random() < 0.5,
         "listener": rng.choice(["scripted", "scripted", "real-protocol"]),
     }
@@ -199,6 +205,9 @@ def run_script(sc: dict) -> dict:
                     except TimeoutError:
                         log.append(("timeout", a, now()))
                         if sc["on_timeout"] == "stop":
+                            if sc.get("level") == "high" and sc.get("escape_timeout"):
+                                res["escaped_timeouts"] = res.get("escaped_timeouts", 0) + 1
+                                raise  # the generator dies with the TimeoutError: same as stopping, a later datagram gets a fresh one
                             return
                         if not T:
                             await asyncio.sleep(POLL)  # a polling handler: drain what is queued, then do something else for a while
@@ -218,6 +227,26 @@ def run_script(sc: dict) -> dict:
             finally:
                 live[a] -= 1
                 log.append(("gen-finally", a, gid, now()))
+
+        low_handler = handler
+        if sc.get("level") == "high":
+            import contextlib
+
+            from easynetwork.servers.handlers import AsyncDatagramRequestHandler
+            from easynetwork.servers.misc import build_lowlevel_datagram_server_handler
+
+            class H(AsyncDatagramRequestHandler):
+                def handle(self_inner, client):
+                    return low_handler(client)
+
+            @contextlib.asynccontextmanager
+            async def initializer(lowlevel_client):
+                try:
+                    yield lowlevel_client  # the handler body only uses .address and .server of the context
+                except Exception as exc:  # noqa: BLE001  (the high-level server logs and contains handler failures here)
+                    log.append(("contained", type(exc).__name__, now()))
+
+            handler = build_lowlevel_datagram_server_handler(initializer, H())  # type: ignore[assignment]
 
         def send_in(arr):
             payload = b"\xff\xfe bad" if arr["bad"] else f"a{arr['addr']}:{arr['seq']}".encode()
@@ -338,6 +367,10 @@ def decide(sc: dict, res: dict, ctx=None) -> str | None:
         ctx.count("datagrams_checked", len(sc["arrivals"]))
         if any(x["bad"] for x in sc["arrivals"]):
             ctx.count("malformed_datagrams")
+        if sc.get("level") == "high":
+            ctx.count("level:high")
+        if res.get("escaped_timeouts"):
+            ctx.count("handler_let_timeout_escape")
         if res.get("restarted"):
             ctx.count("serve_restarted_on_same_listener")
         if res.get("early"):
